@@ -669,7 +669,9 @@ class SpaceTyper:
             # repo function: infer by typing its body with these argument types
             for v in self.ctx.repo.resolve(e.func, self.scope):
                 if isinstance(v, FuncVal) and v.scope.kind == "function":
-                    sub = SpaceTyper(self.ctx, v.scope, dict(zip(v.scope.params(), args)), self.report)
+                    env0 = dict(self.env) if v.scope.parent is self.scope else {}      # a nested helper sees the enclosing variables
+                    env0.update(dict(zip(v.scope.params(), args)))
+                    sub = SpaceTyper(self.ctx, v.scope, env0, self.report)
                     rt = sub.run()
                     self.checked += sub.checked
                     return rt
@@ -846,27 +848,60 @@ def d3_pole_offset(ctx):
         ctx.undecided(rule, sv, None, construct="eigen-decomposition", detail="`values, vectors = eigh(A)` not found")
         return
     vals = eig[0].ast.targets[0].elts[0].id
+    # role of the multiplier: the scalar that shifts the spectrum (`values + lam`)
+    shifts = set()
+    for x in ast.walk(sv.node):
+        if isinstance(x, ast.BinOp) and isinstance(x.op, ast.Add):
+            for a, b in ((x.left, x.right), (x.right, x.left)):
+                if isinstance(a, ast.Name) and a.id == vals and isinstance(b, ast.Name):
+                    shifts.add(b.id)
+    shifts = {x for x in shifts if x not in sv.params() or True}
+
+    def terms(e, sgn=1, out=None):
+        out = [] if out is None else out
+        if isinstance(e, ast.BinOp) and isinstance(e.op, (ast.Add, ast.Sub)):
+            terms(e.left, sgn, out)
+            terms(e.right, sgn if isinstance(e.op, ast.Add) else -sgn, out)
+        elif isinstance(e, ast.UnaryOp) and isinstance(e.op, ast.USub):
+            terms(e.operand, -sgn, out)
+        else:
+            out.append((sgn, e))
+        return out
     found = 0
     for n in cfg.nodes:
-        if n.kind != "stmt" or not isinstance(n.ast, ast.Assign) or not isinstance(n.ast.value, ast.IfExp):
+        if n.kind != "stmt" or not isinstance(n.ast, ast.Assign) or n.loops:
             continue
-        body = n.ast.value.body
-        if not (isinstance(body, ast.BinOp) and isinstance(body.op, ast.Add)):
+        if not any(isinstance(t, ast.Name) and t.id in shifts for t in n.ast.targets):
             continue
-        for a, b in ((body.left, body.right), (body.right, body.left)):
-            if isinstance(a, ast.UnaryOp) and isinstance(a.op, ast.USub) and same(expand(cfg, n, a.operand, stop=(vals,)), f"{vals}[0]"):
-                found += 1
-                off = expand(cfg, n, b, stop=(vals,))
-                sg = SignEnv().sign(off)
-                ok = True if is_nonneg(sg) else None
-                wit = ""
-                if ok is None:
-                    w = _vec_eval(off, {vals: [-3.0, -2.0, -1.0]})
-                    if w is not None and w < 0:
-                        ok, wit = False, f"{w:.3g} for eigenvalues (-3, -2, -1)"
-                ctx.decide(rule, ok, sv, n.ast, construct="initial-multiplier-offset", detail=f"offset `{src(off)}` is non-negative for every spectrum",
-                           bad_detail=f"`{src(n.ast)}`: the offset `{src(off)}` is {wit}: for a matrix of negative trace the boundary iteration starts "
-                                      f"below the pole -lambda_min and converges to a stationary point that is not the minimiser")
+        vs = [n.ast.value.body, n.ast.value.orelse] if isinstance(n.ast.value, ast.IfExp) else [n.ast.value]
+        for v in vs:
+            if const_value(v) == 0:
+                continue                # the multiplier starts at zero when the matrix is safely positive definite
+            ev_ = expand(cfg, n, v, stop=(vals,))
+            ts = terms(ev_)
+            pole = [k for k, (sg_, t) in enumerate(ts) if sg_ == -1 and same(t, f"{vals}[0]")]
+            if len(pole) != 1:
+                continue
+            rest = [x for k, x in enumerate(ts) if k != pole[0]]
+            if not rest:
+                off = ast.Constant(value=0)
+            else:
+                off = None
+                for (sg_, t) in rest:
+                    t2 = t if sg_ == 1 else ast.UnaryOp(op=ast.USub(), operand=t)
+                    off = t2 if off is None else ast.BinOp(left=off, op=ast.Add(), right=t2)
+                ast.fix_missing_locations(off)
+            found += 1
+            sg = SignEnv().sign(off)
+            ok = True if is_nonneg(sg) else None
+            wit = ""
+            if ok is None:
+                w = _vec_eval(off, {vals: [-3.0, -2.0, -1.0]})
+                if w is not None and w < 0:
+                    ok, wit = False, f"{w:.3g} for eigenvalues (-3, -2, -1)"
+            ctx.decide(rule, ok, sv, n.ast, construct="initial-multiplier-offset", detail=f"offset `{src(off)}` is non-negative for every spectrum",
+                       bad_detail=f"`{src(n.ast)}`: the offset `{src(off)}` is {wit}: for a matrix of negative trace the boundary iteration starts "
+                                  f"below the pole -lambda_min and converges to a stationary point that is not the minimiser")
     if not found:
         ctx.undecided(rule, sv, None, construct="initial-multiplier-offset", detail="initial multiplier `-lambda_min + offset` not found")
 
